@@ -55,16 +55,14 @@ func parseCIDR(cidr string) (*net.IPNet, error) {
 		return nil, err // Return original CIDR parse error
 	}
 
-	// Convert single IP to CIDR notation
-	if ip.To4() != nil {
-		// IPv4
-		_, ipNet, _ = net.ParseCIDR(cidr + "/32")
-	} else {
-		// IPv6
-		_, ipNet, _ = net.ParseCIDR(cidr + "/128")
+	// A single address is the network that holds exactly that address. It is
+	// built from the parsed address, not from its text: an IPv4-mapped entry
+	// such as "::ffff:10.0.0.5" is the IPv4 host 10.0.0.5, and appending "/32"
+	// to that text would name the IPv6 network ::/32 instead.
+	if ip4 := ip.To4(); ip4 != nil {
+		return &net.IPNet{IP: ip4, Mask: net.CIDRMask(32, 32)}, nil
 	}
-
-	return ipNet, nil
+	return &net.IPNet{IP: ip, Mask: net.CIDRMask(128, 128)}, nil
 }
 
 // IsAllowed checks if the given IP address is allowed
